@@ -16,21 +16,21 @@ VERIF = os.path.dirname(os.path.dirname(os.path.abspath(__file__)))
 # property -> (family mix, relevance predicate name)
 MIX = {
     "C02": ["wire", "wire", "general", "subscriber", "handshake", "args", "persistent"],
-    "C04": ["handshake", "handshake", "general", "keepalive", "closing", "hostile"],
-    "C05": ["publisher", "publisher", "window", "qos2", "general", "ids", "silence"],
+    "C04": ["handshake", "handshake", "general", "keepalive", "closing", "hostile", "resume"],
+    "C05": ["publisher", "publisher", "window", "qos2", "general", "ids", "silence", "resume"],
     "C06": ["subscriber", "subscriber", "subscriber", "general", "persistent"],
-    "C07": ["subreq", "subreq", "subreq", "general", "silence", "persistent", "clean"],
-    "C08": ["silence", "silence", "silence", "publisher", "subreq", "qos2", "general"],
-    "C09": ["qos2", "qos2", "qos2", "persistent", "silence", "publisher"],
-    "C10": ["window", "window", "window", "publisher", "persistent", "general", "clean"],
-    "C11": ["clean", "clean", "clean", "closing", "general", "keepalive", "hostile"],
-    "C12": ["persistent", "persistent", "persistent", "qos2", "general"],
-    "C13": ["general", "silence", "closing", "clean", "persistent", "publisher", "subreq", "keepalive"],
+    "C07": ["subreq", "subreq", "subreq", "general", "silence", "persistent", "clean", "resume"],
+    "C08": ["silence", "silence", "silence", "publisher", "subreq", "qos2", "general", "resume"],
+    "C09": ["qos2", "qos2", "qos2", "persistent", "silence", "publisher", "resume"],
+    "C10": ["window", "window", "window", "publisher", "persistent", "general", "clean", "resume"],
+    "C11": ["clean", "clean", "clean", "closing", "general", "keepalive", "hostile", "resume"],
+    "C12": ["persistent", "persistent", "persistent", "qos2", "general", "resume"],
+    "C13": ["general", "silence", "closing", "clean", "persistent", "publisher", "subreq", "keepalive", "resume"],
     "C14": ["gate", "gate", "gate", "general", "handshake", "closing"],
     "C15": ["keepalive", "keepalive", "keepalive", "general", "closing"],
     "C16": ["hostile", "hostile", "hostile", "handshake", "gate", "general"],
-    "C17": ["ids", "ids", "ids", "publisher", "subreq", "general", "persistent"],
-    "C18": ["closing", "closing", "general", "wire", "keepalive", "clean", "publisher", "subscriber"],
+    "C17": ["ids", "ids", "ids", "publisher", "subreq", "general", "persistent", "resume"],
+    "C18": ["closing", "closing", "general", "wire", "keepalive", "clean", "publisher", "subscriber", "resume"],
     "C20": ["args", "args", "args", "general", "gate"],
 }
 
